@@ -3,8 +3,12 @@ package certlib
 
 import (
 	"fmt"
+	"math/big"
 	"net/netip"
 	"time"
+
+	"golang.org/x/crypto/cryptobyte"
+	casn1 "golang.org/x/crypto/cryptobyte/asn1"
 
 	"github.com/slackhq/nebula/cert"
 	"verifharness/hlib"
@@ -199,4 +203,96 @@ func LeafFields(r *hlib.Rand, cf Fields, issuerFp string, real bool) Fields {
 	}
 	f.PublicKey = LeafPub(r, cert.Curve(f.Curve%2))
 	return f
+}
+
+// ---- P-256 signature encodings aimed at the low-S boundary ------------------------------------------
+
+var (
+	p256N, _     = new(big.Int).SetString("ffffffff00000000ffffffffffffffffbce6faada7179e84f3b9cac2fc632551", 16)
+	p256HalfN, _ = new(big.Int).SetString("7fffffff800000007fffffffffffffffde737d56d38bcf4279dce5617e3192a8", 16)
+)
+
+// DerSig is the minimal DER ECDSA-Sig-Value of (r, s) (both non-negative).
+func DerSig(r0, s0 *big.Int) []byte {
+	enc := func(x *big.Int) []byte {
+		b := x.Bytes()
+		if len(b) == 0 {
+			b = []byte{0}
+		}
+		if b[0]&0x80 != 0 {
+			b = append([]byte{0}, b...)
+		}
+		return append([]byte{2, byte(len(b))}, b...)
+	}
+	body := append(enc(r0), enc(s0)...)
+	return append([]byte{0x30, byte(len(body))}, body...)
+}
+
+// LowS decides, without the code under test, whether sig is a DER ECDSA signature whose S is at most N/2
+// (ok=false: not a well-formed signature).
+func LowS(sig []byte) (low bool, ok bool) {
+	in := cryptobyte.String(sig)
+	var seq cryptobyte.String
+	r0, s0 := new(big.Int), new(big.Int)
+	if !in.ReadASN1(&seq, casn1.SEQUENCE) || !in.Empty() || !seq.ReadASN1Integer(r0) || !seq.ReadASN1Integer(s0) || !seq.Empty() {
+		return false, false
+	}
+	return s0.Sign() >= 0 && s0.Cmp(p256HalfN) <= 0, true
+}
+
+// BoundaryScalars are scalars around everything a low-S test could get wrong: 0, 1, N/2 and its neighbours,
+// N/2 + 2^k (high S of every magnitude, in particular high S below 2^255 whose 32-byte encoding has a clear top
+// bit), 2^255 and neighbours, N and neighbours, short encodings, 2^256-1.
+func BoundaryScalars(r *hlib.Rand) []*big.Int {
+	one := big.NewInt(1)
+	p := func(k uint) *big.Int { return new(big.Int).Lsh(one, k) }
+	add := func(x *big.Int, d int64) *big.Int { return new(big.Int).Add(x, big.NewInt(d)) }
+	out := []*big.Int{big.NewInt(0), one, big.NewInt(0x7f), big.NewInt(0x80), big.NewInt(0xff),
+		add(p256HalfN, -2), add(p256HalfN, -1), p256HalfN, add(p256HalfN, 1), add(p256HalfN, 2),
+		add(p(255), -1), p(255), add(p(255), 1), add(p(254), 0), add(p(248), -1), p(248), add(p(247), 0),
+		add(p256N, -2), add(p256N, -1), p256N, add(p256N, 1), add(p(256), -1),
+		new(big.Int).Sub(p256N, p256HalfN), new(big.Int).Sub(p(255), p(223)), new(big.Int).Add(new(big.Int).Sub(p(255), p(223)), one)}
+	for _, k := range []uint{0, 1, 7, 8, 31, 32, 63, 64, 100, 127, 128, 191, 192, 200, 222, 223, 224, 240, 247, 248, 250, 253, 254} {
+		out = append(out, new(big.Int).Add(p256HalfN, p(k)))
+		if k < 254 {
+			out = append(out, new(big.Int).Sub(p256HalfN, p(k)))
+		}
+	}
+	// random scalars in each of the three bands [1, N/2], (N/2, 2^255), [2^255, N)
+	for i := 0; i < 4; i++ {
+		x := new(big.Int).SetBytes(r.Bytes(32))
+		out = append(out, new(big.Int).Add(new(big.Int).Mod(x, p256HalfN), one))
+		band := new(big.Int).Sub(add(p(255), -1), p256HalfN)
+		out = append(out, new(big.Int).Add(add(p256HalfN, 1), new(big.Int).Mod(x, band)))
+		top := new(big.Int).Sub(p256N, p(255))
+		out = append(out, new(big.Int).Add(p(255), new(big.Int).Mod(x, top)))
+	}
+	return out
+}
+
+// BoundarySigs are DER signatures with each boundary scalar as S (r random or small) and as R.
+func BoundarySigs(r *hlib.Rand) [][]byte {
+	var out [][]byte
+	for _, x := range BoundaryScalars(r) {
+		r0 := big.NewInt(5)
+		if r.Bool() {
+			r0 = new(big.Int).Add(new(big.Int).Mod(new(big.Int).SetBytes(r.Bytes(32)), new(big.Int).Sub(p256N, big.NewInt(1))), big.NewInt(1))
+		}
+		out = append(out, DerSig(r0, x), DerSig(x, big.NewInt(5)))
+	}
+	return out
+}
+
+// SwapSig is the other S-form of a DER ECDSA signature, (r, N-s), computed without the code under test.
+func SwapSig(sig []byte) ([]byte, error) {
+	in := cryptobyte.String(sig)
+	var seq cryptobyte.String
+	r0, s0 := new(big.Int), new(big.Int)
+	if !in.ReadASN1(&seq, casn1.SEQUENCE) || !in.Empty() || !seq.ReadASN1Integer(r0) || !seq.ReadASN1Integer(s0) || !seq.Empty() {
+		return nil, fmt.Errorf("not a signature")
+	}
+	if r0.Sign() <= 0 || s0.Sign() <= 0 || s0.Cmp(p256N) >= 0 { // r is carried over as it is
+		return nil, fmt.Errorf("scalar out of range")
+	}
+	return DerSig(r0, new(big.Int).Sub(p256N, s0)), nil
 }
